@@ -6,6 +6,7 @@
 From Coq Require Import List Arith Bool.
 From MM Require Import lib.ListSet model.DesignStore proofs.DesignStoreProofs.
 Import ListNotations.
+From MM Require Import gen.Gen_HeapDict gen.Gen_Exhaustive gen.Gen_Greedy proofs.ExhaustiveBridge proofs.GreedyBridge.
 
 (* whatever the filters keep and whatever the enumeration order: at the end of the search every
    stored design's two diagnostics objects (the one in its score and its own) hold the series
@@ -43,3 +44,12 @@ Theorem C04_translated_exhaustive_search_designs_own_their_diagnostics :
     fst (fst d) = stored_key O par bud score0 replace_inv (fst (snd (fst d))) (snd (snd (fst d))).
 Proof. intros. eapply gen_exhaustive_designs_own_their_diag; eassumption. Qed.
 Print Assumptions C04_translated_exhaustive_search_designs_own_their_diagnostics.
+
+(* stated on the Gallina regenerated on this run from _greedy_search itself (gen/Gen_Greedy.v) *)
+Theorem C04_translated_greedy_search_designs_own_their_diagnostics :
+  forall (V K : Type) (O : vops V) (ltk : K -> K -> bool) (es : list elig) (par : spar V)
+         (shareS : set -> V) (bud : set -> set -> V) (gkey : set -> set -> K) (zero_key : K) (fuel : nat) r d,
+    gen_greedy_search O ltk (assignments_of es) par shareS bud gkey zero_key fuel = Some r -> In d (dd_get r 0%Z) ->
+    snd d = snd (fst d) /\ fst (fst d) = gkey (fst (snd (fst d))) (snd (snd (fst d))).
+Proof. intros. eapply gen_greedy_designs_own_their_diag; eassumption. Qed.
+Print Assumptions C04_translated_greedy_search_designs_own_their_diagnostics.
